@@ -390,6 +390,16 @@ def gen_hostile_line(r):
 FAULT_MODES = [None, None, ('call', 'xValueError'), ('inFilter', 'xKeyError'), ('outFilter', 'xRuntimeError'), ('inFilter', 'drop'),
                ('call', 'xAssertionError'), ('outFilter', 'xTypeError'), ('inFilter', 'xMemoryError')]
 
+def few_chunks(r, data):
+    """at most ~25 recv() chunks (the model dumps its whole in-buffer after every operation)"""
+    if not data: return []
+    k = r.choice([0, 1, 2, 5, 12, 25])
+    cuts = sorted(set(r.randrange(1, len(data)) for _ in range(k))) if len(data) > 1 else []
+    out = []; p = 0
+    for c in cuts + [len(data)]:
+        out.append(data[p:c]); p = c
+    return [x for x in out if x]
+
 def run_l3(rig, r, lines, fault, probe_key):
     irc, d, st = rig.session()
     if fault:
@@ -397,7 +407,7 @@ def run_l3(rig, r, lines, fault, probe_key):
         setattr(rig.ctl, what, 'drop' if mode == 'drop' else EXC[mode[1:]])
     for _ in range(2): rig.drivers.run()
     data = b''.join(l + b'\r\n' for l in lines)
-    chunks = c11.partition(r, data, r.choice(['random', 'one', 'targeted']))
+    chunks = few_chunks(r, data)
     ops = []
     for c in chunks:
         rig.sock.recvs.append(('d', c)); ops.append(('sr', ('d', c)))
@@ -516,11 +526,13 @@ def corpus_cases(rig):
     return cases, ml, spans
 
 def run(ctx):
+    import threading
+    threading.excepthook = lambda args: None      # command threads of the live bot die noisily on hostile input
     build = leanbuild.ensure(PROPERTY, THEOREMS, thorough=ctx.thorough, extractors=['Firewall', 'IrcMsgs'])
     rig = Rig3()
     scale = 10 if ctx.thorough else 1
     cc, cml, cspans = corpus_cases(rig)
-    groups, (c3, ml, spans) = explore(rig, 'c07', 4000 * scale, 3000 * scale, 700 * scale)
+    groups, (c3, ml, spans) = explore(rig, 'c07', 4000 * scale, 3000 * scale, 3000 * scale)
     cases = list(cc)
     if build.driver_ok:
         for cs, ls, canon in groups:
